@@ -62,7 +62,13 @@ pub struct LocalPlan {
     /// (["x\u{ff}y", "z"] and ["x", "y\u{ff}z"]) instead of one label with the values x / y
     #[serde(default)]
     pub two_labels: bool,
+    /// signed histogram plans only: two updates out of three observe 0.0 (weight exponent % 3 != 1),
+    /// so that batches with a non-zero count and a sum of exactly zero occur (seeded change C12-r17)
+    #[serde(default)]
+    pub zeros: bool,
 }
+/// set at the start of every run (runs of one worker process are sequential)
+static ZEROS: std::sync::atomic::AtomicBool = std::sync::atomic::AtomicBool::new(false);
 /// set at the start of every run (runs of one worker process are sequential)
 static TWO_LABELS: std::sync::atomic::AtomicBool = std::sync::atomic::AtomicBool::new(false);
 fn two() -> bool {
@@ -102,6 +108,9 @@ const TUPLES: &[&str] = &["x", "y"];
 
 /// observed value of an update with weight exponent `bit`
 fn val(bit: u8, signed: bool) -> f64 {
+    if signed && bit % 3 != 1 && ZEROS.load(std::sync::atomic::Ordering::SeqCst) {
+        return 0.0;
+    }
     let v = (1u64 << bit) as f64;
     if signed && bit % 2 == 1 {
         -v
@@ -194,7 +203,8 @@ fn gen_plan(seed: u64) -> LocalPlan {
     };
     let panic_end = r.chance(15);
     let two_labels = is_vec && r.chance(35);
-    LocalPlan { env, kind, signed, threads, bound_bits, panic_end, two_labels }
+    let zeros = signed && r.chance(35);
+    LocalPlan { env, kind, signed, threads, bound_bits, panic_end, two_labels, zeros }
 }
 
 enum Shared {
@@ -374,6 +384,7 @@ enum LRes {
 
 fn execute(plan: &LocalPlan, mode: Mode) -> RunOut {
     TWO_LABELS.store(plan.two_labels, std::sync::atomic::Ordering::SeqCst);
+    ZEROS.store(plan.zeros, std::sync::atomic::Ordering::SeqCst);
     let sim = new_sim(&plan.env, mode);
     let shared = Arc::new(Shared::new(plan));
     let results: Results<LRes> = Arc::new(Mutex::new(vec![]));
